@@ -35,6 +35,8 @@
        dispatched state."
    WITNESSES (vm_compute)
    C20_recovery_after_fault            FAfter at MarkAsDispatched, then the retrying strategy: 14 labels, c20_ok = true.
+   C20_recovery_after_core_failure_with_hook   FBeforeHook at Step's MarkAsDispatched (core failed without effect, the
+       wrapper still ran the hook: timer re-armed, fires at once), Retry(DispatchErr) dispatches: c20_ok = true.
    C20_canceled_run_stays_dispatched   a run ended by OCanceled: the task stays dispatched, c20_ok = true.
    C20_retry_hypotheses_needed         SysProofs.cex_lost_task (Step instead of Retry(DispatchErr)): only trace_disciplined
        fails, c03..c06 hold, the new clause fails (task stranded dispatched, no run);  RestProofs.cex_c06_fault (Step
@@ -148,11 +150,13 @@ Proof.
       * left. unf. in_norm. tauto.
       * right; left. cbn. reflexivity.
       * right; left. cbn. reflexivity.
+      * right; left. cbn. reflexivity.
     + (* PRetryDE *)
       destruct (String.eqb id (t_id t0)) eqn:Ei; try discriminate. apply String.eqb_eq in Ei. subst id.
       destruct (cret_eqb r _); try discriminate. injection C as Ex.
       unfold call_get_by_id in H. destruct f; cbn [step snd] in H; rewrite ?Ex, ?L in H; cbn [snd] in H.
       * rewrite D in H. inv H. right; left. cbn. congruence.
+      * inv H. right; left. cbn. congruence.
       * inv H. right; left. cbn. congruence.
       * inv H. right; left. cbn. congruence.
   - (* LStepEnd *)
@@ -432,6 +436,60 @@ Example C20_recovery_after_fault :
   /\ postponed_in_window c20_after_fault None [] = [].
 Proof. vm_compute. split; reflexivity. Qed.
 
+(* recovery from a failure of the CORE repository's MarkAsDispatched that took no effect (FBeforeHook): the wrapper
+   still runs the timer hook.  "a" is announced, due, and the cached head; the fire has been consumed (timer idle).
+   The faulty call leaves "a" scheduled, but the hook re-arms for the cached head - the head is due, so the timer
+   fires at once (pending; with FBefore the timer stays idle) - and Step returns DispatchErr.  The driver answers with
+   Retry(DispatchErr): GetById sees the task scheduled and due, MarkAsDispatched succeeds (its hook drains the
+   pending fire: nothing is scheduled any more), fetch, work function, MarkAsDone; the next Step blocks in its
+   select: at rest, every hypothesis of C20_predicate_at_rest holds and c20_ok = true.  The explicit trace is the
+   strategy's continuation (15 labels) of the prefix that ends with the DispatchErr *)
+Definition cex_td : task := set_dispatched cex_t cex_now1.
+Definition c20_core_fail_hook_prefix : list slabel :=
+  (cex_prefix ++ [ LCall (CMarkDisp "a") FBeforeHook false (RRes (RErr EOther)) ])%list.
+Definition c20_core_fail_hook : list slabel :=
+  (c20_core_fail_hook_prefix ++
+   [ LStepEnd (SDispatchErr cex_t) false;
+     LRetryBegin (SDispatchErr cex_t);
+     LCall (CGetById "a") FNone false (RRes (RTask cex_t));           (* still scheduled, due *)
+     LCall (CMarkDisp "a") FNone false (RRes ROk);
+     LCall (CGetById "a") FNone false (RRes (RTask cex_td));
+     LStepEnd (SDispatched "a") false;
+     LStepBegin;
+     LCall CLtue FNone false (RBool false);
+     LCall CTimerCh FNone false RUnit;
+     LWorkStart "a" cex_now1 cex_td;
+     LWorkEnd "a" ONil;
+     LCall (CMarkDone "a" None) FNone false (RRes ROk);
+     LStepEnd (STaskDone "a" ONil false) false;
+     LStepBegin;
+     LCall CLtue FNone false (RBool false);
+     LCall CTimerCh FNone false RUnit ])%list.
+Definition timer_state_after (tr : list slabel) :=
+  match srun sys_init tr with
+  | Some s => Some (hs_timer (sy_h s), map (fun t => (t_id t, t_state t)) (repo_of s))
+  | None => None
+  end.
+Example C20_recovery_after_core_failure_with_hook :
+  c20_report c20_core_fail_hook false
+  = (None, true, true, (true, true, true, true), (true, true, true, true), [("a", Done)], [("a", ONil)], 0%nat)
+  /\ postponed_in_window c20_core_fail_hook None [] = []
+  (* before the call: the fire has been consumed, the timer is idle *)
+  /\ timer_state_after cex_prefix = Some (timer_idle, [("a", Scheduled)])
+  (* after it: the repository is unchanged, the hook has re-armed and the timer has fired at once *)
+  /\ timer_state_after c20_core_fail_hook_prefix = Some (mkTimer None true, [("a", Scheduled)])
+  (* the same failure in transit (FBefore: the wrapper did nothing) leaves the timer idle *)
+  /\ timer_state_after (cex_prefix ++ [ LCall (CMarkDisp "a") FBefore false (RRes (RErr EOther)) ])
+     = Some (timer_idle, [("a", Scheduled)])
+  (* the explicit trace is the retrying strategy's continuation *)
+  /\ match srun sys_init (c20_core_fail_hook_prefix ++ [LStepEnd (SDispatchErr cex_t) false]) with
+     | Some s => (c20_core_fail_hook_prefix ++ LStepEnd (SDispatchErr cex_t) false :: fst (drive (mu s) s))%list
+     | None => []
+     end = c20_core_fail_hook.
+Proof. vm_compute. repeat split; reflexivity. Qed.
+Example c20_core_fail_hook_ok : srun_ok sys_init c20_core_fail_hook.
+Proof. unfold srun_ok. cbn -[sys_step]. vm_compute. intuition. Qed.
+
 (* a run that ends by cancellation of the dispatcher: the task legitimately stays dispatched, c20_ok = true *)
 Definition c20_canceled_run : list slabel :=
   match srun sys_init ex_live_a with
@@ -479,6 +537,8 @@ Print Assumptions C20_no_stranded_dispatched.
 Print Assumptions C20_predicate_at_rest.
 Print Assumptions C20_liveness.
 Print Assumptions C20_recovery_after_fault.
+Print Assumptions C20_recovery_after_core_failure_with_hook.
+Print Assumptions c20_core_fail_hook_ok.
 Print Assumptions C20_canceled_run_stays_dispatched.
 Print Assumptions C20_canceled_before_start_stays_dispatched.
 Print Assumptions C20_retry_hypotheses_needed.
